@@ -323,9 +323,10 @@ func mutate(t *kernel.Tape, p params, payload []byte, capBytes int) (out []byte,
 			}
 		}
 		return nil, "skip"
-	case "wide-ad":
+	case "wide-ad", "zkm-wide-ad":
 		// an ad many times the cap in total although every single expression is far below it
-		// (only meaningful where the payload starts with, or after 8 bytes contains, an ad)
+		// (only meaningful where the payload starts with, or after 8 bytes contains, an ad);
+		// zkm-wide-ad: every expression additionally travels behind the in-band secret marker
 		per := capBytes / 8
 		if per < 16 {
 			per = 16
@@ -340,6 +341,9 @@ func mutate(t *kernel.Tape, p params, payload []byte, capBytes int) (out []byte,
 		b = append(b, cnt[:]...)
 		for i := 0; i < n; i++ {
 			e := fmt.Sprintf("A%06d = \"%s\"", i, strings.Repeat("v", per-16))
+			if p.Mut == "zkm-wide-ad" {
+				b = append(b, 'Z', 'K', 'M', 0)
+			}
 			b = append(append(b, e...), 0)
 		}
 		b = append(b, "Machine\x00Job\x00"...)
@@ -532,7 +536,7 @@ func feed(s *kernel.Sim, p params, wire []byte, capBytes int, dec func(st *strea
 		s.Violate("stack-growth-out-of-proportion", sig, fmt.Sprintf("%s: goroutine stacks grew by %d bytes while decoding (limit 1 MiB + 8 x input): recursion depth follows the peer's input", desc, sg))
 		return
 	}
-	if capBytes > 0 && (p.Mut == "bloat" || p.Mut == "wide-ad" || p.Mut == "zkm-bloat" || p.Mut == "lenbloat") {
+	if capBytes > 0 && (p.Mut == "bloat" || p.Mut == "wide-ad" || p.Mut == "zkm-wide-ad" || p.Mut == "zkm-bloat" || p.Mut == "lenbloat") {
 		consumed := int(ep.BytesIn())
 		if derr == nil {
 			s.Violate("cap-not-enforced", sig, fmt.Sprintf("%s: a value %d times the cap was accepted", desc, p.Val))
@@ -926,7 +930,7 @@ func gen(g *scen.Gen) {
 						if e.cap*int(times) > 8<<20 {
 							continue
 						}
-						if !emit(params{Entry: e.name, Mut: "wide-ad", Off: off, Val: times}) {
+						if !emit(params{Entry: e.name, Mut: "wide-ad", Off: off, Val: times}) || !emit(params{Entry: e.name, Mut: "zkm-wide-ad", Off: off, Val: times}) {
 							return
 						}
 					}
